@@ -111,6 +111,41 @@ Print Assumptions C06_failures_config.
 Print Assumptions C06_failures_nonobject.
 Print Assumptions C06_failures_chain.
 
+(* (5) failures injected anywhere: take any world of oracles and any other world that differs from it only
+   in that some calls - any of resolve, cwd, load_config, configure_logging, log_decision, analyze, the
+   after-rule matcher, print; at any arguments; any number of them - raise an Exception instead of
+   returning.  Then the answer is the one of the first world, or {}, or the config-error ask.  Nothing
+   else: a failure never produces an allow or a deny that was not there. *)
+Section Faults.
+  Variables S G : Type.
+  Variable o_resolve f_resolve : str -> res str.
+  Variable o_getcwd f_getcwd : res str.
+  Variable o_load_config f_load_config : str -> res (config S G).
+  Variable o_configure_logging f_configure_logging : G -> res unit.
+  Variable o_log_decision f_log_decision : str -> str -> res unit.
+  Variable o_analyze f_analyze : str -> S -> str -> res (str * str).
+  Variable o_after_prep f_after_prep : S -> str -> list str -> res unit.
+  Variable o_after_rule f_after_rule : S -> str -> list str -> rule -> res bool.
+  Variable o_print f_print : str -> res unit.
+  Variable o_gmatch : str -> str -> bool.
+  Variable o_words : str -> list str.
+
+  Theorem C06_failures_monotone :
+    faulty S G o_resolve o_getcwd o_load_config o_configure_logging o_log_decision o_analyze o_after_prep o_after_rule o_print
+               f_resolve f_getcwd f_load_config f_configure_logging f_log_decision f_analyze f_after_prep f_after_rule f_print ->
+    forall setup e inp, (setup = Ok tt \/ setup = Raise OSError) ->
+    let good := @main S G o_resolve o_getcwd o_load_config o_configure_logging o_log_decision o_analyze o_gmatch o_words
+                      o_after_prep o_after_rule o_print setup e (Ok inp) in
+    let bad := @main S G f_resolve f_getcwd f_load_config f_configure_logging f_log_decision f_analyze o_gmatch o_words
+                     f_after_prep f_after_rule f_print setup e (Ok inp) in
+    stdout bad = stdout good \/ stdout bad = [J (JObj [])] \/
+    exists m msg, stdout bad = [J (envelope m Ask ($"config error: " ++ msg))].
+  Proof. exact (main_fault_monotone S G o_resolve o_getcwd o_load_config o_configure_logging o_log_decision o_analyze
+                                    o_after_prep o_after_rule o_print f_resolve f_getcwd f_load_config f_configure_logging
+                                    f_log_decision f_analyze f_after_prep f_after_rule f_print o_gmatch o_words). Qed.
+End Faults.
+Print Assumptions C06_failures_monotone.
+
 (* Non-vacuity and the boundary of C06_total. *)
 Definition cfg0 : config unit unit :=
   {| c_shell := tt; c_mcp := []; c_after := []; c_after_mcp := []; c_log := tt |}.
